@@ -1,29 +1,160 @@
 // Conformance driver for spec/containers/ParamObject.tla (property C10,
 // ParameterizedObject part).  The query flag and the parameter order are read
-// through a subclass (params_begin/params_end are protected).
+// through a subclass (params_begin/params_end/findParam are protected).
+//
+// Type tags of the specification and the concrete C++ types they stand for:
+//   int, uint (unsigned), i64 (int64_t), short, char, float, double, bool,
+//   str (std::string), cstr (const char *), ptr (void *), vec3f, vec3i, vec2f
+//   (rkcommon::math), thr (a type whose copy constructor throws on request);
+//   "none" is reported for a parameter without a value.
+// Several of them differ only in signedness / width / element type, have mangled
+// names of equal length or with a common prefix, or convert into one another.
+// "namemap" (input line, default 0) selects the concrete names the model names
+// 1, 2, 3 stand for (empty, NUL bytes, bytes >= 0x80, equal up to a NUL / a long
+// prefix); every map is injective on the names used with it.
+#include <cstdint>
 #include <string>
 #include "driver.h"
+#include "rkcommon/math/vec.h"
 #include "rkcommon/utility/ParameterizedObject.h"
 
 using rkcommon::utility::ParameterizedObject;
+using rkcommon::math::vec2f;
+using rkcommon::math::vec3f;
+using rkcommon::math::vec3i;
 using vj::Json;
 
-static std::string nameOf(long long n) { return "p" + std::to_string(n); }
+static int g_namemap = 0;
+
+static std::string hexOf(const std::string &s)
+{
+  static const char *d = "0123456789abcdef";
+  std::string r;
+  for (size_t i = 0; i < s.size() && i < 40; ++i) {
+    r += d[(unsigned char)s[i] >> 4];
+    r += d[(unsigned char)s[i] & 15];
+  }
+  if (s.size() > 40) r += "...(" + std::to_string(s.size()) + " bytes)";
+  return r;
+}
+
+static bool nameTable(long long n, std::string &out)
+{
+  if (n < 1 || n > 3) return false;
+  static const std::string L(1000, 'n');
+  switch (g_namemap) {
+  case 1: out = std::string((size_t)(n - 1), '\0'); return true;                                        // "", "\0", "\0\0"
+  case 2: out = n == 1 ? std::string("a") : n == 2 ? std::string("a\0", 2) : std::string("ab"); return true;
+  case 3: out = n == 1 ? std::string("\xff") : n == 2 ? std::string("\x80") : std::string("\xff\xff"); return true;
+  case 4: out = n == 1 ? L + "1" : n == 2 ? L + "2" : L; return true;
+  }
+  return false;
+}
+static std::string nameOf(long long n)
+{
+  std::string o;
+  if (nameTable(n, o)) return o;
+  return "p" + std::to_string(n);
+}
+static Json nameBack(const std::string &s)
+{
+  for (long long n = 1; n <= 3; ++n) { std::string o; if (nameTable(n, o) && o == s) return Json(n); }
+  if (s.size() < 2 || s.size() > 11 || s[0] != 'p') return Json("unmapped:" + hexOf(s));
+  for (size_t i = 1; i < s.size(); ++i) if (s[i] < '0' || s[i] > '9') return Json("unmapped:" + hexOf(s));
+  long long n = atoll(s.c_str() + 1);
+  if (g_namemap != 0 && n >= 1 && n <= 3) return Json("unmapped:" + hexOf(s));
+  return Json(n);
+}
+
+// a value type whose copy constructor throws on request
+struct Boom : std::exception
+{
+  const char *what() const noexcept override { return "requested failure"; }
+};
+struct Thr
+{
+  int v;
+  static bool armed;
+  explicit Thr(int x = 0) : v(x) {}
+  Thr(const Thr &o) : v(o.v) { if (armed) { armed = false; throw Boom(); } }
+  Thr &operator=(const Thr &o) { if (armed) { armed = false; throw Boom(); } v = o.v; return *this; }
+};
+bool Thr::armed = false;
+
+static const char *cstrOf(long long v)
+{
+  static std::vector<std::string> table;
+  if (table.empty()) for (int i = 0; i < 128; ++i) table.push_back("c" + std::to_string(i));
+  return table[(size_t)(v & 127)].c_str();
+}
+static char PTR_TARGET[128];
+
+// model payload v <-> concrete value of each type
+template <typename T> struct Val;
+template <> struct Val<int>      { static int make(long long v) { return (int)v; }                       static Json back(int x) { return Json(x); } };
+template <> struct Val<unsigned> { static unsigned make(long long v) { return 3000000000u + (unsigned)v; } static Json back(unsigned x) { return Json((long long)x - 3000000000ll); } };
+template <> struct Val<int64_t>  { static int64_t make(long long v) { return ((int64_t)1 << 40) + v; }   static Json back(int64_t x) { return Json((long long)(x - ((int64_t)1 << 40))); } };
+template <> struct Val<short>    { static short make(long long v) { return (short)-v; }                  static Json back(short x) { return Json(-(int)x); } };
+template <> struct Val<char>     { static char make(long long v) { return (char)v; }                       static Json back(char x) { return Json((int)x); } };
+template <> struct Val<float>    { static float make(long long v) { return (float)v + 0.5f; }            static Json back(float x) { return Json((long long)(x - 0.5f)); } };
+template <> struct Val<double>   { static double make(long long v) { return (double)v + 0.25; }          static Json back(double x) { return Json((long long)(x - 0.25)); } };
+template <> struct Val<bool>     { static bool make(long long v) { return v == 1; }                      static Json back(bool x) { return Json(x ? 1 : 2); } };
+template <> struct Val<std::string>
+{
+  static std::string make(long long v) { return "s" + std::to_string(v); }
+  static Json back(const std::string &s) { return s.size() > 1 && s[0] == 's' ? Json(atoll(s.c_str() + 1)) : Json("unmapped:" + hexOf(s)); }
+};
+template <> struct Val<const char *>
+{
+  static const char *make(long long v) { return cstrOf(v); }
+  static Json back(const char *s) { return s && s[0] == 'c' && s[1] >= '0' && s[1] <= '9' ? Json(atoll(s + 1)) : Json("unmapped cstr"); }
+};
+template <> struct Val<void *>
+{
+  static void *make(long long v) { return (void *)(PTR_TARGET + (v & 127)); }
+  static Json back(void *p) { return Json((long long)((char *)p - PTR_TARGET)); }
+};
+template <> struct Val<vec3f> { static vec3f make(long long v) { return vec3f((float)v, (float)v + 0.5f, -(float)v); } static Json back(const vec3f &x) { return x.y == x.x + 0.5f && x.z == -x.x ? Json((long long)x.x) : Json("unmapped vec3f"); } };
+template <> struct Val<vec3i> { static vec3i make(long long v) { return vec3i((int)v, (int)v + 1, -(int)v); } static Json back(const vec3i &x) { return x.y == x.x + 1 && x.z == -x.x ? Json(x.x) : Json("unmapped vec3i"); } };
+template <> struct Val<vec2f> { static vec2f make(long long v) { return vec2f((float)v, (float)v + 0.5f); } static Json back(const vec2f &x) { return x.y == x.x + 0.5f ? Json((long long)x.x) : Json("unmapped vec2f"); } };
+template <> struct Val<Thr>   { static Thr make(long long v) { return Thr((int)v); } static Json back(const Thr &x) { return Json(x.v); } };
+
+typedef const char *cstr_t;
+typedef void *ptr_t;
+// one line per type tag
+#define FOR_EACH_TYPE(X) \
+  X("int", int) X("uint", unsigned) X("i64", int64_t) X("short", short) X("char", char) X("float", float) X("double", double) \
+  X("str", std::string) X("cstr", cstr_t) X("ptr", ptr_t) X("vec3f", vec3f) X("vec3i", vec3i) X("vec2f", vec2f) X("thr", Thr)
+  // ("bool" is handled apart in getParam: it has only two values)
 
 struct Probe : ParameterizedObject
 {
+  typedef ParameterizedObject::Param Param;
+  size_t count() { return (size_t)(params_end() - params_begin()); }
+  Param &at(size_t i) { return **(params_begin() + (long)i); }
+  Param *find(const std::string &n, bool add) { return findParam(n, add); }
+
+  static void describe(Param &p, Json &row)
+  {
+    if (!p.data.valid()) { row.push("none"); row.push(0); return; }
+    if (p.data.is<bool>()) { row.push("bool"); row.push(Val<bool>::back(p.data.get<bool>())); return; }
+#define X(tag, T) if (p.data.is<T>()) { row.push(tag); row.push(Val<T>::back(p.data.get<T>())); return; }
+    FOR_EACH_TYPE(X)
+#undef X
+    row.push("other");
+    row.push(0);
+  }
+
   Json params()
   {
     Json a = Json::array();
     for (auto it = params_begin(); it != params_end(); ++it) {
       Param &p = **it;
       Json row = Json::array();
-      row.push(p.name.size() > 1 && p.name[0] == 'p' ? Json(atoll(p.name.c_str() + 1)) : Json("unmapped:" + p.name));
-      if (p.data.is<int>()) { row.push("int"); row.push(p.data.get<int>()); }
-      else if (p.data.is<float>()) { row.push("float"); row.push((long long)(p.data.get<float>() - 0.5f)); }
-      else if (p.data.is<std::string>()) { row.push("str"); row.push(atoll(p.data.get<std::string>().c_str() + 1)); }
-      else if (p.data.is<bool>()) { row.push("bool"); row.push(p.data.get<bool>() ? 1 : 2); }
-      else { row.push("other"); row.push(0); }
+      // the lookup by name must find this very parameter
+      if (findParam(p.name, false) != &p) row.push("findParam(name) does not return the parameter listed under that name: " + hexOf(p.name));
+      else row.push(nameBack(p.name));
+      describe(p, row);
       row.push(p.query);
       a.push(row);
     }
@@ -34,40 +165,126 @@ struct Probe : ParameterizedObject
 struct World
 {
   Probe obj;
-  World(const Json &) {}
+  Probe other;        // "shadow" runs: an unrelated object is used between any two steps; nothing of it is reported
+  bool shadow;
+  long long tick;
+  World(const Json &hist) : shadow(hist.has("shadow") && hist["shadow"].num() != 0), tick(0)
+  {
+    g_namemap = hist.has("namemap") ? (int)hist["namemap"].num() : 0;
+  }
+  // calls on an unrelated instance (same names, other types / values, reads that mark its parameters queried, removals)
+  void perturb(const Json &arg)
+  {
+    ++tick;
+    long long n = arg.has("n") ? arg["n"].num() : tick % 3 + 1;
+    other.setParam<double>(nameOf(n), 7.25 + (double)tick);
+    (void)other.getParam<double>(nameOf(n), 0.0);
+    (void)other.getParam<int>(nameOf(n % 3 + 1), 0);
+    (void)other.hasParam(nameOf((n + 1) % 3 + 1));
+    other.removeParam(nameOf((n + tick) % 3 + 1));
+    if (tick % 5 == 0) other.resetAllParamQueryStatus();
+  }
+
+  void set(const std::string &n, const std::string &t, long long v)
+  {
+    if (t == "bool") { obj.setParam<bool>(n, Val<bool>::make(v)); return; }
+#define X(tag, T) if (t == tag) { obj.setParam<T>(n, Val<T>::make(v)); return; }
+    FOR_EACH_TYPE(X)
+#undef X
+    throw std::runtime_error("driver: unknown type tag " + t);
+  }
+  Json get(const std::string &n, const std::string &t, long long d)
+  {
+    if (t == "bool") {
+      // bool has only two values: the default is recognised by asking twice with both defaults
+      bool r1 = obj.getParam<bool>(n, true), r2 = obj.getParam<bool>(n, false);
+      return r1 != r2 ? Json(d) : Val<bool>::back(r1);
+    }
+#define X(tag, T) if (t == tag) return Val<T>::back(obj.getParam<T>(n, Val<T>::make(d)));
+    FOR_EACH_TYPE(X)
+#undef X
+    throw std::runtime_error("driver: unknown type tag " + t);
+  }
+  // setParam(n, <const reference to the value held by parameter `src`>)
+  bool setFrom(const std::string &n, Probe::Param &src)
+  {
+    if (src.data.is<bool>()) { obj.setParam<bool>(n, src.data.get<bool>()); return true; }
+#define X(tag, T) if (src.data.is<T>()) { const T &ref = src.data.get<T>(); obj.setParam<T>(n, ref); return true; }
+    FOR_EACH_TYPE(X)
+#undef X
+    return false;
+  }
+
   Json step(const Json &act)
   {
     const std::string &a = act["a"].str();
     const Json &arg = act["arg"];
     Json o = Json::object();
+    if (shadow) perturb(arg);
     if (a == "SetParam") {
-      const std::string n = nameOf(arg["n"].num());
-      const std::string &t = arg["t"].str();
-      long long v = arg["v"].num();
-      if (t == "int") obj.setParam<int>(n, (int)v);
-      else if (t == "float") obj.setParam<float>(n, (float)v + 0.5f);
-      else if (t == "str") obj.setParam<std::string>(n, "s" + std::to_string(v));
-      else if (t == "bool") obj.setParam<bool>(n, v == 1);
+      set(nameOf(arg["n"].num()), arg["t"].str(), arg["v"].num());
       o.set("ret", "void");
     } else if (a == "GetParam") {
-      const std::string n = nameOf(arg["n"].num());
-      const std::string &t = arg["t"].str();
-      long long d = arg["d"].num();
-      if (t == "int") o.set("ret", obj.getParam<int>(n, (int)d));
-      else if (t == "float") o.set("ret", (long long)(obj.getParam<float>(n, (float)d + 0.5f) - 0.5f));
-      else if (t == "str") o.set("ret", atoll(obj.getParam<std::string>(n, "s" + std::to_string(d)).c_str() + 1));
-      else if (t == "bool") {
-        // bool has only two values: encode "default" by asking twice with both defaults
-        bool r1 = obj.getParam<bool>(n, true), r2 = obj.getParam<bool>(n, false);
-        if (r1 != r2) o.set("ret", d); else o.set("ret", r1 ? 1 : 2);
-      }
+      o.set("ret", get(nameOf(arg["n"].num()), arg["t"].str(), arg["d"].num()));
     } else if (a == "HasParam") {
       o.set("ret", obj.hasParam(nameOf(arg["n"].num())));
     } else if (a == "RemoveParam") {
       obj.removeParam(nameOf(arg["n"].num()));
       o.set("ret", "void");
+    } else if (a == "RemoveParamAt") {
+      // the name argument is the name object stored in the parameter
+      if ((size_t)arg["i"].num() >= obj.count()) {
+        o.set("ret", "not-callable");
+      } else {
+        obj.removeParam(obj.at((size_t)arg["i"].num()).name);
+        o.set("ret", "void");
+      }
+    } else if (a == "SetParamFrom") {
+      Probe::Param *src = obj.find(nameOf(arg["n2"].num()), false);
+      if (!src || !src->data.valid()) o.set("ret", "not-callable");   // no value to refer to
+      else if (arg["n"].num() == arg["n2"].num()) o.set("ret", setFrom(src->name, *src) ? "void" : "driver: value of a type without tag");   // the name aliases too
+      else o.set("ret", setFrom(nameOf(arg["n"].num()), *src) ? "void" : "driver: value of a type without tag");
+    } else if (a == "FindOrAdd") {
+      obj.find(nameOf(arg["n"].num()), true);
+      o.set("ret", "void");
+    } else if (a == "SetParamThrows") {
+      Thr x(7);
+      Thr::armed = true;
+      try {
+        obj.setParam<Thr>(nameOf(arg["n"].num()), x);
+        o.set("ret", "void");
+      } catch (const Boom &) {
+        o.set("ret", "throws");
+      }
+      Thr::armed = false;
     } else if (a == "ResetQuery") {
       obj.resetAllParamQueryStatus();
+      o.set("ret", "void");
+    } else if (a == "SetRange") {
+      long long lo = arg["lo"].num(), n = arg["n"].num(), d = arg["d"].num();
+      for (long long k = lo; k < lo + n; ++k) set(nameOf(k), arg["t"].str(), ((k * 7 + d) % 97) + 1);
+      o.set("ret", "void");
+    } else if (a == "GetRange") {
+      long long lo = arg["lo"].num(), n = arg["n"].num(), hits = 0;
+      for (long long k = lo; k < lo + n; ++k) {
+        Json r = get(nameOf(k), arg["t"].str(), 99);
+        if (!(r == Json(99))) ++hits;
+      }
+      o.set("ret", hits);
+    } else if (a == "RemoveEvery") {
+      long long lo = arg["lo"].num(), n = arg["n"].num(), st = arg["st"].num(), r = arg["r"].num();
+      if (arg["how"].str() == "name") {
+        for (long long k = lo; k < lo + n; ++k)
+          if (k % st == r) obj.removeParam(nameOf(k));
+      } else {
+        size_t i = 0;
+        while (i < obj.count()) {
+          Json nj = nameBack(obj.at(i).name);
+          long long k = nj.type == Json::Int ? nj.num() : -1;
+          if (k >= lo && k < lo + n && k % st == r) obj.removeParam(obj.at(i).name);
+          else ++i;
+        }
+      }
       o.set("ret", "void");
     } else {
       o.set("ret", "unknown action " + a);
